@@ -2,7 +2,10 @@
 // SPDX-License-Identifier: Apache-2.0
 
 use std::mem::{size_of, MaybeUninit};
+#[cfg(not(aws_clock_bound_verif))]
 use std::sync::atomic;
+#[cfg(aws_clock_bound_verif)]
+use verif_rt::atomic;
 
 use crate::{syserror, ShmError};
 
